@@ -389,6 +389,27 @@ pub fn exec_jobs(sc: &C12Scenario, keep_log: bool) -> JobsResult {
         let _ = h.join();
     }
     simlibc::SCHED_HOOK.store(std::ptr::null_mut(), std::sync::atomic::Ordering::SeqCst);
+    // The file system a C12 scenario sees is process-local: whatever the jobs created (the
+    // library creates nothing today; a disk cache would) is removed when the process ends, so
+    // that state can travel between jobs of one scenario — where the schedule controls and
+    // replays it — but never between scenarios.
+    {
+        let mut created: Vec<(String, String)> = vec![];
+        for j in &results {
+            for (op, p) in &j.write_set {
+                if op == "create" || op == "mkdir" || op == "rename-to" || op == "link-to" || op == "symlink-to" {
+                    created.push((op.clone(), p.replace("$STUB", &stub)));
+                }
+            }
+        }
+        for (op, p) in created.iter().rev() {
+            if op == "mkdir" {
+                let _ = std::fs::remove_dir(p);
+            } else {
+                let _ = std::fs::remove_file(p);
+            }
+        }
+    }
     JobsResult { jobs: results, interleaving_digest: digest_strs(&trace), switches }
 }
 
